@@ -234,8 +234,11 @@ pub fn oracle_rewind(snaps: &[Snap], n_links: usize, checks: &mut u64) -> Fails 
                 None => (&empty_auths, &empty_blocked),
             };
             *checks += 2;
-            if *b0 != s.links_blocked {
-                let l = (0..n_links).find(|l| b0[*l] != s.links_blocked[*l]).unwrap_or(0);
+            // links_blocked records ONE of the trains holding a link: when two followers stand on it the entry may name
+            // either (it is rewritten with the train of the link's last authority), so only the blocked / free status
+            // must be restored, and the rewound train may be named only where it was named before
+            let bad = (0..n_links).find(|l| (b0[*l] == 0) != (s.links_blocked[*l] == 0) || (s.links_blocked[*l] == s.moved && b0[*l] != s.moved));
+            if let Some(l) = bad {
                 f.push(("rewind-does-not-restore-links-blocked@rewind".into(), format!("train {} rewound: link {} was blocked by train {} before its tentative advance and is blocked by train {} after the rewind", s.moved, l, b0[l], s.links_blocked[l])));
             }
             let mut bad: Option<String> = None;
@@ -530,9 +533,9 @@ pub fn scenarios(t: &Topo, tier: Tier) -> Vec<Scenario> {
         Tier::Quick => 3,
         Tier::Thorough => {
             if descs.len() <= 16 {
-                4
+                5
             } else {
-                3
+                4
             }
         }
     };
@@ -547,6 +550,14 @@ pub fn scenarios(t: &Topo, tier: Tier) -> Vec<Scenario> {
                     continue;
                 }
                 if n >= 4 && (d.long || d.dep == 60) {
+                    continue;
+                }
+                // thorough tier, deeper positions: 4th train on large topologies and every 5th train short, departing at 0 or 300 s
+                if ((n >= 4 && descs.len() > 16) || n >= 5) && d.dep == 900 {
+                    continue;
+                }
+                // ... and on the largest descriptor sets (more than 16) the third train is short as well
+                if n >= 3 && descs.len() > 16 && tier == Tier::Thorough && max_n >= 4 && d.long {
                     continue;
                 }
                 let mut x = c.clone();
@@ -640,7 +651,7 @@ impl Prop for DispatchProp {
         self.which
     }
     fn rule(&self, tier: Tier) -> String {
-        format!("E-SHAPE over dispatch scenarios: topologies {{plain line, single passing siding, two-track terminals (two origin / destination segments), two sidings, a corridor with an intermediate terminal (trains with different destinations following each other), Y junction with three terminals, diamond crossing with symmetric lockout declarations, double track with a crossover link between single-track terminals (opposing trains re-routed onto the parallel track; a held follower standing on the terminal link is rewound), two-track terminals joined by double track with a crossover, two double-track sections joined by a single-track bridge, full double track with a scissors crossover between two-track terminals}}{} (10 km terminal links, every link with its flip) x EVERY ordered sequence of n <= {} trains, each train = (origin/destination pair incl. both directions) x departure in {{0, 60, 300, 900}} s (all relative orders and ties) x length in {{360 m, 1080 m}} (later positions restricted as stated in DESIGN); estimated-time networks are the real make_est_times outputs. One real run_dispatch per scenario; hook H1 exposes the dispatch state after every tentative advance inside the inner loop, after every rewind, after every completed train move and at the end (states = snapshots, transitions = advances). Oracle {} on every snapshot (tentative ones included) and on the returned plan; for C04 additionally: right after a rewind the authority table and links_blocked equal what they were at the previous completed move, the rewound train is at its fixed node and keeps no pass time beyond it. distinct_nontrivial = distinct (topology, outcome, set of events: paused mid-route / blocked behind a train / followed on a link / tentative advance / rewind / re-route / diverged / free node moved back / waited / stuck-error) signatures.", if tier.is_thorough() { " x middle-link length in {0.5, 3, 20 km}" } else { " (middle links 3 km)" }, if tier.is_thorough() { "4 (3 on topologies with more than 16 train descriptors)" } else { "3 (third train short; on topologies with more than 16 train descriptors its departure is 0 or 300 s)" }, self.which)
+        format!("E-SHAPE over dispatch scenarios: topologies {{plain line, single passing siding, two-track terminals (two origin / destination segments), two sidings, a corridor with an intermediate terminal (trains with different destinations following each other), Y junction with three terminals, diamond crossing with symmetric lockout declarations, double track with a crossover link between single-track terminals (opposing trains re-routed onto the parallel track; a held follower standing on the terminal link is rewound), two-track terminals joined by double track with a crossover, two double-track sections joined by a single-track bridge, full double track with a scissors crossover between two-track terminals}}{} (10 km terminal links, every link with its flip) x EVERY ordered sequence of n <= {} trains, each train = (origin/destination pair incl. both directions) x departure in {{0, 60, 300, 900}} s (all relative orders and ties) x length in {{360 m, 1080 m}} (later positions restricted as stated in DESIGN); estimated-time networks are the real make_est_times outputs. One real run_dispatch per scenario; hook H1 exposes the dispatch state after every tentative advance inside the inner loop, after every rewind, after every completed train move and at the end (states = snapshots, transitions = advances). Oracle {} on every snapshot (tentative ones included) and on the returned plan; for C04 additionally: right after a rewind the authority table equals what it was at the previous completed move and links_blocked marks the same links as blocked (never naming the rewound train where it was not named before), the rewound train is at its fixed node and keeps no pass time beyond it. distinct_nontrivial = distinct (topology, outcome, set of events: paused mid-route / blocked behind a train / followed on a link / tentative advance / rewind / re-route / diverged / free node moved back / waited / stuck-error) signatures.", if tier.is_thorough() { " x middle-link length in {0.5, 3, 20 km}" } else { " (middle links 3 km)" }, if tier.is_thorough() { "5 (4 on topologies with more than 16 train descriptors; 4th train short and not departing at 60 s, 5th train -- and the 4th on the large topologies -- short and departing at 0 or 300 s, 3rd train short on the large topologies)" } else { "3 (third train short; on topologies with more than 16 train descriptors its departure is 0 or 300 s)" }, self.which)
     }
     fn assumptions(&self) -> Vec<String> {
         vec![
